@@ -93,6 +93,10 @@ fn project_doc(variant: usize) -> Vec<ABlock> {
         cons.push(("ABSORPTANCE", n(0.75)));
     }
     d.push(blk("Muro tipo 0.75", "CONSTRUCTION", cons));
+    if full {
+        // a written zero is a value, not an absent attribute
+        d.push(blk("Muro tipo 0", "CONSTRUCTION", vec![("TYPE", w("LAYERS")), ("LAYERS", s("Muro tipo")), ("ABSORPTANCE", n(0.0))]));
+    }
     let mut win = vec![("X", n(1.5)), ("Y", n(0.75)), ("SETBACK", n(0.25)), ("HEIGHT", n(1.25)), ("WIDTH", n(2.0)), ("GAP", s("Hueco tipo"))];
     if full {
         win.push(("COEFF", AVal::NumList(vec![1.0, 0.5, 0.25, 1.0])));
@@ -305,6 +309,12 @@ fn check_typed(ctx: &Ctx, variant: usize, d: &Data, case: &dyn Fn() -> serde_jso
     match d.db.wallcons.get("Muro tipo 0.75") {
         Some(c) if c.absorptance == if full { 0.75 } else { 0.6 } && c.thickness == vec![0.125, 0.0, 0.25] => {}
         other => bad("CONSTRUCTION", format!("{:?}", other)),
+    }
+    if full {
+        match d.db.wallcons.get("Muro tipo 0") {
+            Some(c) if c.absorptance == 0.0 => {}
+            other => bad("CONSTRUCTION:absorptance-written-as-zero", format!("{:?}", other.map(|c| c.absorptance))),
+        }
     }
     match d.db.glasses.get("Vidrio doble") {
         Some(g) if g.conductivity == 2.75 && (g.g_gln - 0.5 * 0.86).abs() < 1e-6 => {}
